@@ -958,6 +958,11 @@ func validateV2FileContracts(ms *MidState, txn types.V2Transaction) error {
 				return fmt.Errorf("file contract storage proof %v has invalid history proof", i)
 			}
 			leafIndex := ms.base.StorageProofLeafIndex(fc.Filesize, sp.ProofIndex.ChainIndex.ID, types.FileContractID(fcr.Parent.ID))
+			if fc.Filesize > 0 && len(sp.Proof) < storageProofSubtreeHeight(leafIndex, fc.Filesize) {
+				// storageProofRoot signals a proof that is too short with the
+				// zero hash, which is only the Merkle root of an empty file
+				return fmt.Errorf("file contract storage proof %v has too few proof hashes", i)
+			}
 			if storageProofRoot(ms.base.StorageProofLeafHash(sp.Leaf[:]), leafIndex, fc.Filesize, sp.Proof) != fc.FileMerkleRoot {
 				return fmt.Errorf("file contract storage proof %v has root that does not match contract Merkle root", i)
 			}
